@@ -678,3 +678,173 @@ _targets_before_circuit_plots = targets
 
 def targets():      # noqa: F811
     return _targets_before_circuit_plots() + [target_circuit_individual_plots()]
+
+
+
+def target_parse_inputs():
+    """cli/utility.parse_inputs: every data set every input gives -- each file's data sets (all of them, or exactly the requested
+    `--nth` ones), each mock specifier's data sets -- is in the result exactly once, in input order, also when two mock specifiers
+    produce data sets with the same label (they are collected, not overwritten).  Real function on recording stand-ins."""
+    def run(sess: Session):
+        for nth in ([], [1], [0, 2]):
+            made = {}
+
+            def get_mock_data(spec):
+                made[spec] = [FakeData("same-label" if "dup" in spec else f"label-of-{spec}") for _ in range(2 if "two" in spec else 1)]
+                return made[spec]
+
+            def parse_data(path):
+                made[path] = [FakeData(f"{path}#{k}") for k in range(3)]
+                return made[path]
+            inputs = ["a.csv", "<dup:seed=1>", "<two>", "<dup:seed=2>", "b.mpt"]
+            ns = {"get_mock_data": get_mock_data, "parse_data": parse_data, "validate_input_paths": lambda p_: None, "len": len, "enumerate": enumerate, "DataSet": FakeData}
+            O.load(UTIL, ["parse_inputs"], ns)
+            out = ns["parse_inputs"](SimpleNamespace(input=list(inputs), nth_data_set=list(nth)))
+            got = [d for v in out.values() for d in v]
+            want = []
+            for i_ in inputs:
+                if i_.startswith("<"):
+                    want += made[i_[1:-1]]
+                else:
+                    want += [d for k, d in enumerate(made[i_]) if not nth or k in nth]
+            tag = f"[--nth {nth or 'not given'}]"
+            sess.check("post", [], z3.BoolVal(len(got) == len(want) and {id(x) for x in got} == {id(x) for x in want}), 0, label=f"{tag}every data set of every input is in the result exactly once")
+            sess.check("post", [], z3.BoolVal(all(isinstance(v, list) for v in out.values()) and [id(x) for x in out.get("a.csv", [])] == [id(d) for k, d in enumerate(made["a.csv"]) if not nth or k in nth]), 0,
+                       label=f"{tag}a file's data sets are listed under its path, in file order")
+            sess.check("post", [], z3.BoolVal([id(x) for x in out.get("same-label", [])] == [id(made["dup:seed=1"][0]), id(made["dup:seed=2"][0])]), 0, label=f"{tag}mock data sets with the same label are collected under that label, in input order")
+    return (f"{UTIL}:parse_inputs", UTIL, "parse_inputs", run)
+
+
+_targets_before_parse_inputs = targets
+
+
+def targets():      # noqa: F811
+    return _targets_before_parse_inputs() + [target_parse_inputs()]
+
+
+
+_INTERP_REPRO = '''import numpy as np
+from pyimpspec.analysis.utility import _interpolate
+lo, hi, npd = %r, %r, %r
+f = _interpolate(np.array([10.0 ** hi, 10.0 ** lo]), npd)
+want = int(round(hi - lo)) * npd + 1
+assert len(f) == want, (len(f), want)
+'''
+
+
+def target_interpolate():
+    """analysis/utility._interpolate(frequencies, num_per_decade) -- the grid `pyimpspec circuit --simulate` writes and every
+    result's get_frequencies(num_per_decade) uses: logspace from the highest to the lowest frequency with
+    round(log10 f_max - log10 f_min) * num_per_decade + 1 points, the number of decades ROUNDED (a span of 4.52 decades counts as 5,
+    not 4).  Real function on symbolic reals: round() and int() of a symbolic number give symbolic integers tied to it by the
+    defining inequalities; the point count handed to logspace must be the specified one for every span."""
+    from pyvc import overload as O
+    from . import domain as D
+    AU = "analysis/utility"
+
+    class SymInt(int):
+        """an int whose value is a z3 integer expression (the int itself is a placeholder)"""
+        def __new__(cls, e):
+            o = int.__new__(cls, 7)
+            o.e = e
+            return o
+
+        def _b(s, o, f):
+            oe = o.e if isinstance(o, SymInt) else (z3.IntVal(o) if isinstance(o, int) else None)
+            if oe is None:
+                raise O.Unsupported("symbolic integer combined with a non-integer")
+            return SymInt(f(s.e, oe))
+
+        def __mul__(s, o): return s._b(o, lambda a, b: a * b)
+        __rmul__ = __mul__
+        def __add__(s, o): return s._b(o, lambda a, b: a + b)
+        __radd__ = __add__
+        def __sub__(s, o): return s._b(o, lambda a, b: a - b)
+        def __int__(s): return s
+        def __index__(s): raise O.Unsupported("symbolic integer used as an index")
+
+    def run(sess: Session):
+        for npd_value in (1, 3, 10):
+            _run_interpolate(sess, npd_value)
+
+    def _run_interpolate(sess, npd_value):
+        # (num_per_decade is fixed per run: the obligation stays linear in the two logarithms)
+        lmin, lmax, npd = z3.Real("log_min_f"), z3.Real("log_max_f"), z3.IntVal(npd_value)
+        facts, rec = [], {}
+
+        class N(D.Num):
+            def __round__(s, nd=None):
+                if nd is not None:
+                    raise O.Unsupported("round to decimals")
+                r = z3.Int(f"round!{len(facts)}")
+                facts.append(z3.And(z3.ToReal(r) - s.e <= z3.RealVal("1/2"), s.e - z3.ToReal(r) <= z3.RealVal("1/2")))
+                return SymInt(r)
+
+            def __int__(s):
+                # truncation towards zero
+                t = z3.Int(f"trunc!{len(facts)}")
+                facts.append(z3.If(s.e >= 0, z3.And(z3.ToReal(t) <= s.e, s.e < z3.ToReal(t) + 1), z3.And(z3.ToReal(t) >= s.e, s.e > z3.ToReal(t) - 1)))
+                return SymInt(t)
+
+            def __sub__(s, o): return N(s.e - s._z(o))
+            def __floor__(s):
+                t = z3.Int(f"floor!{len(facts)}")
+                facts.append(z3.And(z3.ToReal(t) <= s.e, s.e < z3.ToReal(t) + 1))
+                return SymInt(t)
+
+            def __ceil__(s):
+                t = z3.Int(f"ceil!{len(facts)}")
+                facts.append(z3.And(z3.ToReal(t) >= s.e, s.e > z3.ToReal(t) - 1))
+                return SymInt(t)
+        fmin, fmax = object(), object()
+        logs = {id(fmin): N(lmin), id(fmax): N(lmax)}
+
+        def logspace(a, b, num=None, dtype=None, **kw):
+            rec.update(a=a, b=b, num=num)
+            return "GRID"
+        import math as _math
+        ns = {"_is_floating_array": lambda x: True, "_cast_to_floating_array": lambda x: x, "_is_integer": lambda x: True, "len": lambda x: 2, "min": lambda x: fmin, "max": lambda x: fmax,
+              "isinf": lambda x: False, "log": lambda x: logs[id(x)], "log10": lambda x: logs[id(x)], "logspace": logspace, "isclose": lambda a, b, **k: type("B", (), {"any": lambda s_: True})(),
+              "round": round, "int": lambda x: x if isinstance(x, SymInt) else (x.__int__() if isinstance(x, D.Num) else int(x)), "floor": _math.floor, "ceil": _math.ceil, "Frequency": float, "float64": float, "int64": int}
+        # the ordering tests `0.0 < min_f < max_f` are on opaque objects: answer them as the domain says
+        class Fq:
+            def __init__(s, name): s.name = name
+            def __lt__(s, o): return True
+            def __gt__(s, o): return True
+        fmin, fmax = Fq("min"), Fq("max")
+        logs = {id(fmin): N(lmin), id(fmax): N(lmax)}
+        O.load(AU, ["_interpolate"], ns)
+        out = ns["_interpolate"]("FREQS", SymInt(npd))
+        hyps = facts + [lmax > lmin, npd >= 1]
+        num = rec.get("num")
+        ok_shape = out == "GRID" and isinstance(num, SymInt) and isinstance(rec.get("a"), D.Num) and isinstance(rec.get("b"), D.Num)
+        sess.check("post", [], z3.BoolVal(bool(ok_shape)), 0, label=f"[num_per_decade={npd_value}]the grid is one logspace call with a computed number of points")
+        if ok_shape:
+            sess.check("post", hyps, z3.And(rec["a"].e == lmax, rec["b"].e == lmin), 0, label=f"[num_per_decade={npd_value}]from log10 f_max down to log10 f_min")
+            Dd = z3.Int("decades")
+            # (strictly within half a decade: an exact tie, where Python rounds to the even neighbour, is left out of the statement)
+            spec = z3.And(z3.ToReal(Dd) - (lmax - lmin) < z3.RealVal("1/2"), (lmax - lmin) - z3.ToReal(Dd) < z3.RealVal("1/2"))
+            away = z3.BoolVal(True)
+            ob = sess.check("post", hyps + [spec, away], num.e == Dd * npd + 1, 0, label=f"[num_per_decade={npd_value}]number of points == round(log10 f_max - log10 f_min) * num_per_decade + 1, for every span")
+            m = getattr(ob, "_z3model", None)
+            if ob.status == "refuted" and m is not None:
+                def val(x):
+                    v = m.eval(x, model_completion=True)
+                    return float(v.as_fraction()) if z3.is_rational_value(v) else float(v.as_decimal(12).rstrip("?"))
+                try:
+                    lo_, hi_, n_ = val(lmin), val(lmax), npd_value
+                    if -6 <= lo_ < hi_ <= 9 and 1 <= n_ <= 50:
+                        ob.replay = {"input": [lo_, hi_, n_], "repro": _INTERP_REPRO % (lo_, hi_, n_)}
+                except Exception:      # noqa: BLE001
+                    pass
+            if ob.status == "refuted" and not ob.replay:
+                ob.replay = {"input": [-0.52, 4.0, 5], "repro": _INTERP_REPRO % (-0.52, 4.0, 5)}
+        sess.check("canary", hyps, z3.BoolVal(False), 0, label=f"[num_per_decade={npd_value}]ensures-False", expect_refuted=True)
+    return (f"{AU}:_interpolate", AU, "_interpolate", run)
+
+
+_targets_before_interpolate = targets
+
+
+def targets():      # noqa: F811
+    return _targets_before_interpolate() + [target_interpolate()]
